@@ -94,6 +94,8 @@ def gen_plan(prop, tier, rng, i):
                 ev["dst"] = "ch0/%s/%s" % (sd, nm)
             else:
                 ev["dst"] = _mkpath(rng, (wstart, wend))
+        if k in ("created", "moved") and rng.random() < 0.12:
+            ev["synthetic"] = True
         events.append(ev)
         if rng.random() < 0.1:
             # a replayed existing file (dispatched without the window test, as DigitalRFMirror.start() does), then
@@ -338,12 +340,16 @@ def run_plan(prop, plan):
             k = ev["k"]
             src = os.path.join(root, ev["src"])
             dst = os.path.join(root, ev["dst"]) if "dst" in ev else None
+            syn = bool(ev.get("synthetic"))
             if k == "moved":
-                e = we.FileMovedEvent(src, dst)
+                e = we.FileMovedEvent(src, dst, is_synthetic=syn)
             elif k == "dir_moved":
                 e = we.DirMovedEvent(src, dst)
             else:
-                e = mk[k](src)
+                e = mk[k](src, is_synthetic=syn) if syn else mk[k](src)
+            if syn:
+                # (what watchdog generates for the files of a directory that was moved into / inside the watched tree)
+                res.probe("synthetic_event")
             del calls[:]
             timed = not ev.get("untimed")
             try:
